@@ -1,3 +1,4 @@
 import BppModel.Drive.C20
+import BppModel.Prelude.Scalar
 import BppModel.Proto
 import BppModel.Range
